@@ -976,6 +976,10 @@ func (s *Session) Encode(ctx context.Context, v interface{}) error {
 	defer setWriteDeadline(ctx, s.conn)()
 	tw := &openTracker{w: s.out.e}
 	err := marshal.EncodeXML(tw, v)
+	if err == nil && len(tw.open) > 0 {
+		// The encoding of v ended inside an element.
+		err = io.ErrUnexpectedEOF
+	}
 	if err != nil {
 		tw.closeOpen()
 	}
@@ -996,6 +1000,10 @@ func (s *Session) EncodeElement(ctx context.Context, v interface{}, start xml.St
 	defer setWriteDeadline(ctx, s.conn)()
 	tw := &openTracker{w: s.out.e}
 	err := marshal.EncodeXMLElement(tw, v, start)
+	if err == nil && len(tw.open) > 0 {
+		// The encoding of v ended inside an element.
+		err = io.ErrUnexpectedEOF
+	}
 	if err != nil {
 		tw.closeOpen()
 	}
@@ -1056,6 +1064,16 @@ func send(ctx context.Context, s *Session, r xml.TokenReader, start *xml.StartEl
 		/* #nosec */
 		s.out.e.Flush()
 		return err
+	}
+	if len(tw.open) > 0 {
+		// The payload ended inside an element: the same, the end of the input is
+		// no excuse for leaving it open.
+		tw.closeOpen()
+		/* #nosec */
+		s.out.e.EncodeToken(start.End())
+		/* #nosec */
+		s.out.e.Flush()
+		return io.ErrUnexpectedEOF
 	}
 	err = s.out.e.EncodeToken(start.End())
 	if err != nil {
